@@ -75,7 +75,7 @@ def ser_key(o):
     return json.dumps({k: v for k, v in o.items() if k != "sink"}, sort_keys=True)
 
 
-def make_session(rng, g, desc):
+def make_session(rng, g, desc, tsdump=None):
     ops = list(g.sb.ops)
     h = g.views["_InitialView"]
     origin = "api"
@@ -84,7 +84,14 @@ def make_session(rng, g, desc):
     ts_ops = []
     if desc is not None:
         layout = {"order": rng.sample(range(len(desc)), len(desc))} if len(desc) > 1 else None
-        d2 = [desc[i] for i in layout["order"]] if layout else desc
+        d2 = [desc[i] for i in layout["order"]] if layout else list(desc)
+        if tsdump is not None and rng.random() < 0.6:
+            # built-ins redeclared identically are remembered in a set and written back: their order must not depend
+            # on the hash seed
+            from harness.props import c12
+            for bn in rng.sample(["uima.tcas.Annotation", "uima.cas.Sofa", "uima.cas.AnnotationBase", "uima.cas.FSArray",
+                                  "uima.cas.NonEmptyFSList", "uima.cas.StringArray", "uima.cas.FSList"], rng.randint(2, 5)):
+                d2.insert(rng.randint(0, len(d2)), c12.builtin_entry(tsdump, bn))
         ops.append({"op": "ts.load_xml", "desc": d2})
         t_xml = g.sb.n_ts
         ops.append({"op": "ts.merge", "inputs": [t_xml, g.ts]})
@@ -158,9 +165,10 @@ def run(ctx, out, budget):
     seeds = SEEDS_QUICK if budget == "quick" else SEEDS_THOROUGH
     gens = [casgen.CasGen(rng, n_types=rng.randint(1, 6), n_fs=rng.randint(1, 9), xmi_safe=True).build() for _ in range(n)]
     # the descriptors of the generated type systems (stage A, this process), to load them back from XML
-    stage_a = sessions.run_impl_sessions([list(g.sb.ops) + [{"op": "ts.to_xml", "ts": g.ts}] for g in gens])
+    stage_a = sessions.run_impl_sessions([list(g.sb.ops) + [{"op": "ts.query", "ts": g.ts, "kind": "dump"}, {"op": "ts.to_xml", "ts": g.ts}] for g in gens])
     descs = [io_[-1].get("ok") for io_ in stage_a]
-    scen = [make_session(rng, g, d) for g, d in zip(gens, descs)]
+    dumps = [io_[-2].get("ok") for io_ in stage_a]
+    scen = [make_session(rng, g, d, dm) for g, d, dm in zip(gens, descs, dumps)]
     sess = [s[0] for s in scen]
     from concurrent.futures import ThreadPoolExecutor
     with ThreadPoolExecutor(max_workers=min(len(seeds), 12)) as ex:
